@@ -74,7 +74,7 @@ def verdictAuto : Except AutoXact.LErr AutoXact.FXact → Verdict Row
   | .error .unbalanced => .unbalanced
   | .error .twoNulls => .twoNulls
   | .error .nullAmount => .nullLeft
-  | .error .unsupported => .other
+  | .error _ => .other
 
 /-- C09 only distinguishes POST_VIRTUAL (`(A)` and `[A]` alike). -/
 def Row.toAssert (r : Row) : Assert.Entry := ⟨r.account, decide (r.kind ≠ .real), r.amt⟩
@@ -143,6 +143,13 @@ def costOtherComm (ps : List Posting) : Bool :=
     | _, _ => true)
 
 def noCost (ps : List Posting) : Bool := ps.all (fun p => p.cost.isNone)
+
+/-- no posting amount carries a lot annotation (`BASE{price}[date]`, the encoding
+    of C16); C01/C02, C08 and C09 do not model lots at all. -/
+def noLotAmt (ps : List Posting) : Bool :=
+  ps.all (fun p => match p.amount with
+    | some a => !AutoXact.hasLot a.comm
+    | none => true)
 
 def noCostAssert (ps : List Posting) : Bool := ps.all (fun p => p.cost.isNone && p.assert.isNone)
 
@@ -274,20 +281,72 @@ theorem sortedAmounts_of_eq_fin (b : Balance) : OF.sortedAmounts b = FinX.sortBy
       · simp [h]
       · simp [h, ihl]
 
-theorem sortByComm_auto_eq_fin (b : List Amount) : AutoXact.sortByComm b = FinX.sortByComm b := by
+theorem takeWhile_all {α : Type} (p : α → Bool) : ∀ l : List α, (∀ x ∈ l, p x = true) → l.takeWhile p = l := by
+  intro l
+  induction l with
+  | nil => intro _; rfl
+  | cons x xs ih =>
+    intro h
+    rw [List.takeWhile_cons, h x List.mem_cons_self]
+    simp only [if_true]
+    rw [ih (fun y hy => h y (List.mem_cons_of_mem _ hy))]
+
+/-- a commodity without a lot annotation is its own base symbol -/
+theorem baseComm_of_noLot (c : Comm) (h : AutoXact.hasLot c = false) : AutoXact.baseComm c = c := by
+  unfold AutoXact.baseComm
+  unfold AutoXact.hasLot at h
+  rw [takeWhile_all, String.ofList_toList]
+  intro ch hch
+  simp only [decide_eq_true_eq]
+  intro e
+  subst e
+  have : c.toList.contains '{' = true := List.contains_iff_mem.2 hch
+  rw [h] at this; cases this
+
+/-- C16 sorts by base symbol, an unannotated commodity before its lots; without
+    lots this is the plain order by symbol. -/
+theorem insertByComm_auto_eq_fin (a : Amount) (l : List Amount)
+    (h : ∀ x ∈ a :: l, AutoXact.hasLot x.comm = false) :
+    AutoXact.insertByComm a l = FinX.insByComm a l := by
+  induction l with
+  | nil => rfl
+  | cons b bs ih =>
+    have ha := baseComm_of_noLot a.comm (h a List.mem_cons_self)
+    have hb := baseComm_of_noLot b.comm (h b (List.mem_cons_of_mem _ List.mem_cons_self))
+    simp only [AutoXact.insertByComm, FinX.insByComm, ha, hb]
+    have ih' := ih (fun x hx => by
+      rcases List.mem_cons.1 hx with rfl | hx'
+      · exact h _ List.mem_cons_self
+      · exact h x (List.mem_cons_of_mem _ (List.mem_cons_of_mem _ hx')))
+    by_cases hle : a.comm ≤ b.comm
+    · have : a.comm < b.comm ∨ a.comm = b.comm ∧ a.comm ≤ b.comm := by
+        by_cases he : a.comm = b.comm
+        · exact Or.inr ⟨he, hle⟩
+        · refine Or.inl (Classical.byContradiction fun hn => he ?_)
+          exact String.le_antisymm hle (String.not_lt.1 hn)
+      rw [if_pos this, if_pos hle]
+    · have : ¬ (a.comm < b.comm ∨ a.comm = b.comm ∧ a.comm ≤ b.comm) := by
+        rintro (h1 | h1)
+        · exact hle (String.not_lt.1 (String.lt_asymm h1))
+        · exact hle h1.2
+      rw [if_neg this, if_neg hle, ih']
+
+theorem mem_insByComm {a x : Amount} {l : List Amount} (h : x ∈ FinX.insByComm a l) : x = a ∨ x ∈ l := by
+  have := (FinX.insByComm_perm a l).mem_iff.1 h
+  simpa using this
+
+theorem sortByComm_auto_eq_fin (b : List Amount) (h : ∀ x ∈ b, AutoXact.hasLot x.comm = false) :
+    AutoXact.sortByComm b = FinX.sortByComm b := by
   induction b with
   | nil => rfl
   | cons a as ih =>
     show AutoXact.insertByComm a (AutoXact.sortByComm as) = FinX.insByComm a (FinX.sortByComm as)
-    rw [ih]
-    generalize FinX.sortByComm as = l
-    induction l with
-    | nil => rfl
-    | cons b bs ihl =>
-      simp only [AutoXact.insertByComm, FinX.insByComm]
-      split
-      · rfl
-      · rw [ihl]
+    rw [ih (fun x hx => h x (List.mem_cons_of_mem _ hx))]
+    apply insertByComm_auto_eq_fin
+    intro x hx
+    rcases List.mem_cons.1 hx with rfl | hx'
+    · exact h _ List.mem_cons_self
+    · exact h x (List.mem_cons_of_mem _ ((FinX.sortByComm_perm as).mem_iff.1 hx'))
 
 theorem sortByComm_assert_eq_fin (b : List Amount) : Assert.sortByComm b = FinX.sortByComm b := by
   induction b with
